@@ -307,6 +307,8 @@ CHECKS["C11"] = {
     "go": GO126,
     "units": [
         {"name": "limits", "pkg": "internal/limits", "overlay": {"verif_c11_test.go": "harness/C11/limits_test.go"}},
+        {"name": "remote", "pkg": "internal/target/remote", "run": "^TestVerifC11", "go": GO,
+         "overlay": {"verif_c11_test.go": "harness/C11/remote_test.go"}, "overlay_abs": VERIFX},
     ],
     "quick": {"n": 8000, "shards": 16},
     "thorough": {"n": 320000, "shards": 16},
@@ -338,7 +340,22 @@ CHECKS["C09"] = {
     "technique": "property-based testing (rapid) of transaction histories with a multiset-equality oracle",
 }
 
+CHECKS["C05"] = {
+    "title": "outbound mail only over connections that satisfy the policy",
+    "go": GO,
+    "units": [
+        {"name": "remote", "pkg": "internal/target/remote", "run": "^TestVerifC05",
+         "overlay": {"verif_c05_test.go": "harness/C05/policy_test.go"}, "overlay_abs": VERIFX},
+    ],
+    "quick": {"n": 6400, "shards": 16},
+    "thorough": {"n": 256000, "shards": 16},
+    "level_text": "randomised search (rapid) over policy sets, per-MX facts, message flags and histories of messages sharing the connection cache, run through the real remote target, "
+                  "policy modules and ExtResolver against scripted TLS/plain MX servers and a mock DNS server on loopback; oracle = safety predicate over what the servers received.",
+    "level_note": "only safety is asserted (what must not be transmitted); the MTA-STS fetcher is stubbed; TLSA usages other than DANE-EE are covered by C13",
+    "technique": "property-based testing (rapid) with a by-construction safety predicate over observed transmissions",
+}
+
 # properties deliberately not claimed: {"property_id":..., "reason":...}
 NOT_APPLICABLE = []
 
-FIX_COMMITS = ["b0fbfbf", "ce16772", "79536cb", "9da7ceb", "ba9a898", "cd17c24", "0f579ef", "cfad1cd", "1450983", "0eb6137", "4ba5ca6", "2f36527", "b732485", "0e0d97d", "b946db5", "3bc2b0d", "7489d42", "0cccb75", "c472f5d", "674085b", "73fcd7e", "697926b", "0e63ec2", "16c771f", "5bb0b0a", "7be8843", "debd9c3"]
+FIX_COMMITS = ["b0fbfbf", "ce16772", "79536cb", "9da7ceb", "ba9a898", "cd17c24", "0f579ef", "cfad1cd", "1450983", "0eb6137", "4ba5ca6", "2f36527", "b732485", "0e0d97d", "b946db5", "3bc2b0d", "7489d42", "0cccb75", "c472f5d", "674085b", "73fcd7e", "697926b", "0e63ec2", "16c771f", "5bb0b0a", "7be8843", "debd9c3", "9790624", "e55761e", "d0b7056", "7233be6"]
